@@ -75,11 +75,9 @@ def _ir():
 # Shared strategies
 # ---------------------------------------------------------------------------
 
-_VALS = st.one_of(
-    st.integers(-40, 40).map(lambda k: k / 8.0),
-    st.floats(-5.0, 5.0, allow_nan=False, allow_infinity=False, width=64),
-)
-_CELL = st.one_of(_VALS, _VALS, _VALS, _VALS, st.none())
+_FLOATS = st.floats(-5.0, 5.0, allow_nan=False, allow_infinity=False, width=64)
+_EIGHTHS = st.integers(-60, 40)            # k/8; k <= -41 means missing (about one cell in five)
+_FLOAT_CELL = st.one_of(_FLOATS, _FLOATS, _FLOATS, _FLOATS, st.none())
 
 
 @st.composite
@@ -91,10 +89,15 @@ def _anchor(draw, f):
 
 @st.composite
 def _series_near(draw, f, anchor, nv=None, max_len=10, spread=6, scale=1.0, allow_empty=False):
+    """Series description {"f", "start", "nv", "rows"} starting within `spread` periods of the anchor index."""
     off = draw(st.integers(-spread, spread))
-    n = draw(st.integers(1, max_len))
-    nv = nv if nv is not None else draw(st.sampled_from([1, 1, 2, 3]))
-    rows = draw(st.lists(st.lists(_CELL, min_size=nv, max_size=nv), min_size=n, max_size=n))
+    n = draw(st.sampled_from([min(4, max_len)] + list(range(1, max_len + 1))))
+    nv = nv if nv is not None else draw(st.sampled_from([2, 1, 1, 3]))
+    if draw(st.integers(0, 3)) == 0:
+        rows = draw(st.lists(st.lists(_FLOAT_CELL, min_size=nv, max_size=nv), min_size=n, max_size=n))
+    else:
+        ks = draw(st.lists(_EIGHTHS, min_size=n * nv, max_size=n * nv))
+        rows = [[None if ks[r * nv + v] <= -41 else ks[r * nv + v] / 8.0 for v in range(nv)] for r in range(n)]
     if scale != 1.0:
         rows = [[None if x is None else x * scale for x in row] for row in rows]
     if not allow_empty and all(x is None for row in rows for x in row):
@@ -216,13 +219,15 @@ def _preds(universe):
 
 
 def _source_sel(universe, allow_none=True):
-    lst = st.integers(0, 5).flatmap(lambda k: st.lists(st.sampled_from(universe), min_size=min(k, 1), max_size=max(k, 1), unique=True))
+    # the first alternative is what Hypothesis treats as simplest: keep it a useful, typical selection
+    lst = st.sampled_from([2, 1, 3, 4, 5, 0]).flatmap(
+        lambda k: st.lists(st.sampled_from(universe), min_size=min(k, 1), max_size=max(k, 1), unique=True))
     opts = [
         st.tuples(st.just("list"), lst).map(list),
+        st.tuples(st.just("pred"), _preds(universe)).map(list),
         st.tuples(st.just("list"), lst).map(list),
         st.tuples(st.just("tuple"), lst).map(list),
         st.tuples(st.just("str"), st.sampled_from(universe)).map(list),
-        st.tuples(st.just("pred"), _preds(universe)).map(list),
         st.tuples(st.just("pred"), _preds(universe)).map(list),
     ]
     if allow_none:
@@ -245,17 +250,11 @@ _ROUNDS = ["default", "default", None, None, 0, 1, 2, 3, 6, 9, 12, 15]
 
 @st.composite
 def _csv_case(draw):
-    nf = draw(st.sampled_from([1, 2, 2, 3, 3, 4]))
+    nf = draw(st.sampled_from([2, 1, 2, 3, 3, 4]))
     freqs = draw(st.lists(st.sampled_from(refcal.ALL), min_size=nf, max_size=nf, unique=True))
     anchors = {f: draw(_anchor(f)) for f in freqs}
-    ns = draw(st.sampled_from([1, 2, 3, 3, 4, 4, 5, 6]))
+    ns = draw(st.sampled_from([3, 1, 2, 3, 4, 4, 5, 6]))
     names = draw(st.lists(_NAME, min_size=ns, max_size=ns, unique_by=lambda s: s.lower()))
-    items = []
-    for k, name in enumerate(names):
-        f = freqs[k] if k < len(freqs) else draw(st.sampled_from(freqs))
-        scale = 10.0 ** draw(st.sampled_from([0, 0, 0, -7, -3, 2, 6]))
-        ser = draw(_series_near(f, anchors[f], max_len=40 if f == 365 else 14, spread=8, scale=scale))
-        items.append({"name": name, "desc": draw(_DESC), "series": ser})
     extras = []
     used = {n.lower() for n in names}
     if draw(st.booleans()) and "scalar_" not in used:
@@ -263,7 +262,7 @@ def _csv_case(draw):
     if draw(st.booleans()) and "list_" not in used:
         extras.append(["list_", draw(st.lists(st.integers(-3, 3), max_size=3))])
     universe = names * 4 + [e[0] for e in extras] + ["absent_"]
-    name_sel = draw(st.one_of(_source_sel(universe, allow_none=False), st.none(), st.none()))
+    name_sel = draw(st.one_of(st.none(), _source_sel(universe, allow_none=False), _source_sel(universe, allow_none=False)))
     # span / frequency selection
     kind = draw(st.sampled_from(["none", "none", "none", "span", "span", "frequency_span", "frequency_span", "frequency"]))
     some_f = freqs * 4 + list(refcal.ALL)
@@ -302,6 +301,13 @@ def _csv_case(draw):
         "when_empty": draw(st.sampled_from(["default", "default", "silent", "warning", "error"])),
         "return_info": draw(st.booleans()),
     }
+    # bulk data last (Hypothesis fills the tail of early examples with simplest choices)
+    items = []
+    for k, name in enumerate(names):
+        f = freqs[k] if k < len(freqs) else draw(st.sampled_from(freqs))
+        scale = 10.0 ** draw(st.sampled_from([0, 0, 0, -7, -3, 2, 6]))
+        ser = draw(_series_near(f, anchors[f], max_len=20 if f == 365 else 12, spread=8, scale=scale))
+        items.append({"name": name, "desc": draw(_DESC), "series": ser})
     return {"items": items, "extras": extras, "opts": opts}
 
 
@@ -523,7 +529,7 @@ def _check_csv(case):
 # 2. Dataslate round trip
 # ---------------------------------------------------------------------------
 
-_SCALARS = st.one_of(st.integers(-5, 5), st.integers(-40, 40).map(lambda k: k / 8.0))
+_SCALARS = st.one_of(st.integers(-5, 5), st.integers(-40, 40).map(lambda k: k / 8.0), _FLOATS)
 _FB_VALUE = st.one_of(_SCALARS, _SCALARS, st.lists(_SCALARS, min_size=1, max_size=3))
 
 
@@ -532,7 +538,7 @@ def _slate_case(draw):
     f = draw(st.sampled_from(refcal.ALL))
     anchor = draw(_anchor(f))
     pool = ["a", "b", "c", "d", "e", "k", "w"]
-    n_items = draw(st.sampled_from([1, 2, 3, 3, 4, 5]))
+    n_items = draw(st.sampled_from([3, 1, 2, 3, 4, 5]))
     names = draw(st.lists(st.sampled_from(pool), min_size=n_items, max_size=n_items, unique=True))
     items = []
     for name in names:
@@ -549,8 +555,8 @@ def _slate_case(draw):
                          st.lists(st.sampled_from(likely), min_size=1, max_size=5, unique=True), st.none()))
     likely = (req or names) * 3 + pool
     lo = anchor + draw(st.integers(-10, 10))
-    n = draw(st.integers(1, 14))
-    nv = draw(st.sampled_from([1, 1, 2, 3]))
+    n = draw(st.sampled_from([5] + list(range(1, 15))))
+    nv = draw(st.sampled_from([2, 1, 1, 3]))
     fb = draw(st.one_of(st.lists(st.tuples(st.sampled_from(likely), _FB_VALUE), min_size=1, max_size=3, unique_by=lambda t: t[0]), st.just([])))
     ow = draw(st.one_of(st.lists(st.tuples(st.sampled_from(likely), _FB_VALUE), min_size=1, max_size=2, unique_by=lambda t: t[0]),
                         st.just([]), st.just([])))
@@ -854,12 +860,12 @@ def _cmp_item(m, r):
 
 @st.composite
 def _machine_case(draw):
-    nf = draw(st.sampled_from([1, 2, 2, 3]))
+    nf = draw(st.sampled_from([2, 1, 2, 3]))
     freqs = draw(st.lists(st.sampled_from(refcal.ALL), min_size=nf, max_size=nf, unique=True))
     anchors = {f: draw(_anchor(f)) for f in freqs}
     series_pool = [n for f in freqs for n in _POOL[f]]
     pool = series_pool + draw(st.sampled_from([["s1", "l1"], ["s1", "s2", "l1"], ["s1"], _PLAIN]))
-    kmax = {n: draw(st.sampled_from([1, 2, 3])) for n in series_pool}
+    kmax = {n: draw(st.sampled_from([2, 1, 3])) for n in series_pool}
     derived = []
     for n in pool:
         derived += ["x_" + n, n + "_x", n.upper()]
@@ -872,15 +878,9 @@ def _machine_case(draw):
         if name[0] == "l":
             return {"name": name, "kind": "value", "value": draw(st.lists(st.sampled_from([1, 2, 0.5, "u"]), max_size=3))}
         f = _KIND_F[name[0]]
-        nv = draw(st.sampled_from([1, kmax[name], kmax[name]]))
+        nv = draw(st.sampled_from([kmax[name], 1, kmax[name]]))
         return {"name": name, "kind": "series", "desc": draw(st.sampled_from(["", "", name + " descr", "a, \"b\""])),
                 "series": draw(_series_near(f, anchors[f], nv=nv, max_len=9, spread=6))}
-
-    boxes = []
-    for _ in range(2):
-        k = draw(st.integers(min(2, len(pool)), len(pool)))
-        names = draw(st.lists(st.sampled_from(pool), min_size=k, max_size=k, unique=True))
-        boxes.append([item(n) for n in names])
 
     def same_kind_name(n):
         return [m for m in pool if m[0] == n[0]]
@@ -896,15 +896,15 @@ def _machine_case(draw):
                                    st.lists(st.sampled_from(lay_universe), min_size=0, max_size=2, unique=True)))
             return {"op": kind, "t": t, "names": names, "strict": strict, "tuple": draw(st.booleans())}
         if kind == "clip":
-            f = draw(st.sampled_from(freqs + freqs + list(refcal.ALL)))
+            f = draw(st.sampled_from(freqs * 4 + list(refcal.ALL)))
             a = anchors.get(f, 0 if f == 0 else pgen.ref_index({"f": f, "y": 2000, "s": 1} if f != 365 else {"f": 365, "o": 730120}))
-            lo = draw(st.one_of(st.integers(-8, 6), st.none()))
-            hi = draw(st.one_of(st.integers(-3, 14), st.none()))
+            lo = draw(st.one_of(st.integers(-8, 6), st.integers(-8, 6), st.none()))
+            hi = draw(st.one_of(st.integers(-3, 14), st.integers(-3, 14), st.none()))
             if lo is not None and hi is not None and lo > hi and draw(st.integers(0, 9)) > 0:
                 lo, hi = hi, lo
             return {"op": "clip", "t": t, "f": f, "lo": None if lo is None else a + lo, "hi": None if hi is None else a + hi}
         if kind == "prepend":
-            f = draw(st.sampled_from(freqs + freqs + list(refcal.ALL)))
+            f = draw(st.sampled_from(freqs * 4 + list(refcal.ALL)))
             a = anchors.get(f, 0 if f == 0 else pgen.ref_index({"f": f, "y": 2000, "s": 1} if f != 365 else {"f": 365, "o": 730120}))
             return {"op": "prepend", "t": t, "f": f, "end": a + draw(st.integers(-9, 12))}
         if kind in ("copy", "shallow", "rename"):
@@ -934,8 +934,13 @@ def _machine_case(draw):
         return {"op": "merge", "t": t, "strategy": draw(st.sampled_from(_STRATEGIES)),
                 "arg": draw(st.sampled_from(["box", "box", "list", "twice"]))}
 
-    nops = draw(st.sampled_from([1, 2, 3, 4, 5, 6, 7, 8, 8]))
+    nops = draw(st.sampled_from([4, 1, 2, 3, 5, 6, 7, 8, 8]))
     ops = draw(st.lists(op(), min_size=nops, max_size=nops))
+    boxes = []
+    for _ in range(2):
+        k = draw(st.sampled_from(list(range(max(2, len(pool) - 3), len(pool) + 1)) + list(range(min(2, len(pool)), len(pool) + 1))))
+        names = draw(st.lists(st.sampled_from(pool), min_size=k, max_size=k, unique=True))
+        boxes.append([item(n) for n in names])
     return {"boxes": boxes, "ops": ops}
 
 
